@@ -86,6 +86,12 @@ def build_inputs(tier: str):
             cases.append((f"stmt{i}:{lay}", mutate.layout(s, lay, r), "exec", ["snippet", lay]))
     for i, s in enumerate(corpus.arg_order_variants() + corpus.string_prefix_variants()):
         cases.append((f"srcform{i}", s, "exec", ["source-form"]))
+    from harness.props import c09 as _c09
+
+    for i, (k, s) in enumerate(c for c in _c09.build_inputs(tier) if c[0] == "indent"):
+        cases.append((f"indent{i}", s, "exec", ["indent"]))  # blanks, tabs and form feeds in the indentation
+    for i, s in enumerate(corpus.string_mixes() + corpus.pattern_spellings()):
+        cases.append((f"mix{i}", s, "exec", ["source-form"]))
     for i, s in enumerate(corpus.FINAL_LINE_FORMS):
         cases.append((f"finalline{i}", s, "exec", ["final-line"]))
     for i, s in enumerate(corpus.PY_EXPRS):
